@@ -960,7 +960,19 @@ class HTTPResponse(BaseHTTPResponse):
 
         flush_decoder = amt is None or (amt != 0 and not data)
 
-        if not data and len(self._decoded_buffer) == 0:
+        if (
+            not data
+            and len(self._decoded_buffer) == 0
+            # At the end of the body a decoder that has seen data must still
+            # be flushed so that it can report a truncated stream.
+            and not (
+                amt is not None
+                and data is not None
+                and flush_decoder
+                and decode_content
+                and self._has_decoded_content
+            )
+        ):
             return data
 
         if amt is None:
@@ -989,6 +1001,7 @@ class HTTPResponse(BaseHTTPResponse):
                 # For example, the GZ file header takes 10 bytes, we don't want to read
                 # it one byte at a time
                 data = self._raw_read(amt)
+                flush_decoder = not data
                 decoded_data = self._decode(data, decode_content, flush_decoder)
                 self._decoded_buffer.put(decoded_data)
             data = self._decoded_buffer.get(amt)
@@ -1073,6 +1086,13 @@ class HTTPResponse(BaseHTTPResponse):
             while not is_fp_closed(self._fp) or len(self._decoded_buffer) > 0:
                 data = self.read(amt=amt, decode_content=decode_content)
 
+                if data:
+                    yield data
+
+            if amt is not None and self._has_decoded_content:
+                # The body has ended: read once more so that the decoder is
+                # flushed and can report a truncated stream.
+                data = self.read(amt=amt, decode_content=decode_content)
                 if data:
                     yield data
 
